@@ -74,13 +74,21 @@ class TrProg:
     def U(self, msg):
         return Ctx.Untranslatable(msg)
 
+    def always_true_opts(self):
+        """optional types whose non-None values are always true in Python, so that `if x` == `if x is not None`"""
+        return self.t.get('always_true_opts', ('opthandler',))
+
     # ------------------------------------------------------------------ expressions
     def truthy(self, text, ty):
         P = self.P
         if ty == 'bool':
             return text
-        if ty in ('optetype', 'opthandler'):
+        if ty in self.always_true_opts():
+            # None | an object that is always true (e.g. a function): true iff present
             return f'({text}).isSome'
+        if ty == 'optetype':
+            # None | str | EventType: an empty string is false, too -- NOT the same test as `is not None`
+            return f'(match {text} with | some x_ => {P}.etypeTruthy x_ | none => false)'
         if ty == 'etype':
             return f'{P}.etypeTruthy ({text})'
         if ty == 'dataval':
@@ -126,14 +134,17 @@ class TrProg:
                         return (lean.format(P=P, x=env[base][0]), ty)
             raise self.U(f'unknown access path {p or txt}')
         if isinstance(node, ast.UnaryOp) and isinstance(node.op, ast.Not):
-            t, ty = self.expr(node.operand, env)
+            t, ty = self.in_truth_position(node.operand, env)
             return (f'(!{self.truthy(t, ty)})', 'bool')
         if isinstance(node, ast.BoolOp):
             parts = [self.expr(v, env) for v in node.values]
+            if not getattr(self, 'in_test', False) and not all(ty == 'bool' for _, ty in parts):
+                # `a or b` as a VALUE is one of its operands, not a truth value
+                raise self.U('and/or over non-bool operands used as a value: ' + txt[:60])
             op = ' && ' if isinstance(node.op, ast.And) else ' || '
             return ('(' + op.join(self.truthy(t, ty) for t, ty in parts) + ')', 'bool')
         if isinstance(node, ast.IfExp):
-            c, cty = self.expr(node.test, env)
+            c, cty = self.in_truth_position(node.test, env)
             a, aty = self.expr(node.body, env)
             b, bty = self.expr(node.orelse, env)
             if aty != bty:
@@ -144,6 +155,15 @@ class TrProg:
         if isinstance(node, ast.Call):
             return self.call(node, env)
         raise self.U('expression ' + txt[:80])
+
+    def in_truth_position(self, node, env):
+        """an operand of which only the truth value is used (`not x`, the test of `a if x else b`)"""
+        old = getattr(self, 'in_test', False)
+        self.in_test = True
+        try:
+            return self.expr(node, env)
+        finally:
+            self.in_test = old
 
     def compare(self, node, env):
         P = self.P
@@ -319,6 +339,22 @@ class TrProg:
                             return (lean.format(P=P, x=env[base][0], a=args), rty)
         return None
 
+    def check_inert(self, node, what):
+        """an expression inside an ignored construct must not be able to do anything: names, attribute paths,
+        constants, f-strings over those, `isinstance(...)`, `is [not] None`, not/and/or, tuples; no other
+        calls (eager `%` formatting or `.format` can raise, a call can have any effect), no walrus"""
+        for n in ast.walk(node):
+            if isinstance(n, (ast.Name, ast.Attribute, ast.Constant, ast.JoinedStr, ast.FormattedValue, ast.Load,
+                              ast.Tuple, ast.UnaryOp, ast.Not, ast.BoolOp, ast.And, ast.Or, ast.Is, ast.IsNot,
+                              ast.Compare)):
+                continue
+            if isinstance(n, ast.Call) and isinstance(n.func, ast.Name) and n.func.id == 'isinstance' and not n.keywords:
+                continue
+            if (isinstance(n, ast.Call) and not n.keywords
+                    and (path_or_none(n.func) or '') in self.t.get('inert_calls', ())):
+                continue        # a helper declared to be a pure formatter (it still evaluates eagerly)
+            raise self.U(f'{what}: `{ast.unparse(node)[:60]}` is not an inert expression')
+
     def ignorable_call(self, node):
         if not isinstance(node, ast.Call):
             return False
@@ -341,7 +377,11 @@ class TrProg:
     def cond(self, test, env):
         """-> (lean Bool text, reads_state)"""
         self.reads_state = False
-        t, ty = self.expr(test, env)
+        self.in_test = True
+        try:
+            t, ty = self.expr(test, env)
+        finally:
+            self.in_test = False
         return self.truthy(t, ty), self.reads_state
 
     def with_state(self, reads, inner, pad):
@@ -389,8 +429,14 @@ class TrProg:
         if isinstance(s, ast.Expr) and isinstance(s.value, ast.Constant) and isinstance(s.value.value, str):
             return self.block(rest, env, fall, ind, live)
         if isinstance(s, ast.Assert):
+            self.check_inert(s.test, 'assert')
+            if s.msg is not None:
+                self.check_inert(s.msg, 'assert message')
             return self.block(rest, env, fall, ind, live)
         if isinstance(s, ast.Expr) and self.ignorable_call(s.value):
+            # the call is ignored, but its arguments are evaluated: they must be inert
+            for a in list(s.value.args) + [k.value for k in s.value.keywords]:
+                self.check_inert(a, 'argument of the ignored call ' + (path_or_none(s.value.func) or ''))
             return self.block(rest, env, fall, ind, live)
         # ---- raise / return
         if isinstance(s, ast.Raise):
@@ -398,6 +444,8 @@ class TrProg:
                 if '$exc' not in env:
                     raise self.U('bare raise outside of an except clause')
                 return f"{pad}M.raise {env['$exc'][0]}"
+            if s.cause is not None and not (isinstance(s.cause, ast.Constant) and s.cause.value is None):
+                raise self.U('raise ... from <exception>')
             t, ty = self.expr(s.exc, env)
             if ty != 'exc':
                 raise self.U('raise of a non-exception')
@@ -407,10 +455,11 @@ class TrProg:
                 if 'ret_none' not in self.t:
                     raise self.U('return None')
                 return f"{pad}M.ret ({self.t['ret_none'].format(P=P)})"
+            self.reads_state = False
             t, ty = self.expr(s.value, env)
             if ty != self.t['ret_type']:
                 raise self.U(f'return of a value of type {ty}')
-            return f'{pad}M.ret ({t})'
+            return self.with_state(self.reads_state, f'{pad}M.ret ({t})', pad)
         # ---- expression statements with an effect
         if isinstance(s, ast.Expr):
             eff = self.effect(s.value, env)
@@ -428,7 +477,9 @@ class TrProg:
                     env2[tgt.id] = (tgt.id, eff[1])
                     return (f'{pad}M.bind ({eff[0]}) fun {tgt.id} =>\n'
                             + self.block(rest, env2, fall, ind, live))
+                self.reads_state = False
                 t, ty = self.expr(s.value, env)
+                reads = self.reads_state
                 if ty == 'none':
                     if tgt.id in names_used(rest) or tgt.id in live:
                         # an Optional that is None on this path
@@ -444,7 +495,8 @@ class TrProg:
                         raise self.U(f'{tgt.id}: {env[tgt.id][1]} = <{ty}>')
                     t, ty = conv.format(P=P, x=t), env[tgt.id][1]
                 env2[tgt.id] = (tgt.id, ty)
-                return f'{pad}let {tgt.id} := {t}\n' + self.block(rest, env2, fall, ind, live)
+                # a value that reads the block's state reads it NOW (not what an enclosing test has read)
+                return self.with_state(reads, f'{pad}let {tgt.id} := {t}\n' + self.block(rest, env2, fall, ind, live), pad)
             if tp in self.t.get('assign', {}):
                 t, ty = self.expr(s.value, env)
                 want, lean = self.t['assign'][tp]
@@ -462,7 +514,8 @@ class TrProg:
                     env2[base] = (base, 'data')
                     return (f"{pad}let {base} := {self.t['setitem'][key].format(P=P, d=env[base][0], x=t)}\n"
                             + self.block(rest, env2, fall, ind, live))
-            if isinstance(tgt, ast.Attribute) and tgt.attr in self.t.get('ignore_attrs', ()) and path_or_none(tgt.value) in env:
+            if (isinstance(tgt, ast.Attribute) and tgt.attr in self.t.get('ignore_attrs', ())
+                    and path_or_none(tgt.value) in env and isinstance(s.value, ast.Name)):
                 return self.block(rest, env, fall, ind, live)
             raise self.U('assignment ' + ast.unparse(s)[:80])
         # ---- if
@@ -485,10 +538,11 @@ class TrProg:
                 and isinstance(test.left, ast.Name) and test.left.id in env
                 and env[test.left.id][1] in ('optetype', 'opthandler')):
             return test.left.id, env[test.left.id][1][3:], isinstance(test.ops[0], ast.Is)
-        if isinstance(test, ast.Name) and test.id in env and env[test.id][1] in ('optetype', 'opthandler'):
-            return test.id, env[test.id][1][3:], False      # `if handler:` -- an optional object is true iff present
+        # `if handler:` / `if not handler:` narrow only when truthiness and `is not None` coincide for the type
+        if isinstance(test, ast.Name) and test.id in env and env[test.id][1] in self.always_true_opts():
+            return test.id, env[test.id][1][3:], False
         if (isinstance(test, ast.UnaryOp) and isinstance(test.op, ast.Not) and isinstance(test.operand, ast.Name)
-                and test.operand.id in env and env[test.operand.id][1] in ('optetype', 'opthandler')):
+                and test.operand.id in env and env[test.operand.id][1] in self.always_true_opts()):
             return test.operand.id, env[test.operand.id][1][3:], True
         return None
 
@@ -672,7 +726,23 @@ class TrProg:
                 + self.block(rest, after(env), fall, ind, live))
 
     # ------------------------------------------------------------------ a function
+    def check_header(self, fn):
+        """what the body relies on without saying so: the parameters (e.g. `**data` is a fresh dict, so that
+        storing into it is invisible to the caller), no decorator wrapping the method, not a coroutine"""
+        if 'signature' in self.t:
+            if not isinstance(fn, ast.FunctionDef):
+                raise self.U('not a plain function')
+            if fn.decorator_list:
+                raise self.U('decorated method')
+            args = ast.unparse(ast.arguments(
+                posonlyargs=[ast.arg(arg=a.arg) for a in fn.args.posonlyargs], args=[ast.arg(arg=a.arg) for a in fn.args.args],
+                vararg=fn.args.vararg and ast.arg(arg=fn.args.vararg.arg), kwonlyargs=[ast.arg(arg=a.arg) for a in fn.args.kwonlyargs],
+                kw_defaults=fn.args.kw_defaults, kwarg=fn.args.kwarg and ast.arg(arg=fn.args.kwarg.arg), defaults=fn.args.defaults))
+            if args != self.t['signature']:
+                raise self.U(f"signature ({args}), expected ({self.t['signature']})")
+
     def function(self, fn):
+        self.check_header(fn)
         env = {}
         for name, ty in self.t['args']:
             env[name] = (name, ty)
@@ -776,7 +846,7 @@ structure SendPrims (σ ε δ φ ψ : Type) where
   sameCircuit : Bool                  -- `source.circuit is dest.circuit is simulator.get_circuit()`
   mkExc : String → String → ε
   setSource : δ → δ                   -- `data['source'] = source.name`
-  applyFilter : φ → δ → ψ             -- `efilter(data)`
+  applyFilter : φ → δ → M σ ε Bool ψ  -- `efilter(data)` (user code: an action that may raise)
   isMapping : ψ → Bool                -- `isinstance(retval, MutableMapping)`
   anyKeyNotStr : ψ → Bool             -- some `key in retval` with `not isinstance(key, str)`
   asData : ψ → δ                      -- the mapping as the new event data
@@ -787,10 +857,28 @@ structure SendPrims (σ ε δ φ ψ : Type) where
 '''
 
 
+def subclasses(cls):
+    out = []
+    for c in cls.__subclasses__():
+        out.append(c)
+        out.extend(subclasses(c))
+    return out
+
+
+def not_overridden(api, cls, name):
+    """the method the tie is about must be the one that runs: no class of edzed overrides it"""
+    import edzed    # noqa: F401  (all block classes of the library are loaded)
+    for c in subclasses(cls):
+        if c.__module__.startswith('edzed') and name in vars(c):
+            raise api['Untranslatable'](f'{cls.__name__}.{name} is overridden in {c.__module__}.{c.__name__}')
+    return api['fn_ast'](vars(cls)[name])
+
+
 def event_target(api):
     block = api['block']
     return dict(
-        name='event', doc='block.SBlock.event', node=lambda: api['fn_ast'](block.SBlock.event),
+        name='event', doc='block.SBlock.event', node=lambda: not_overridden(api, block.SBlock, 'event'),
+        signature='self, etype, /, **data',
         P='P', prims='EventPrims σ ε τ δ ν η ρ γ', tyvars='{σ ε τ δ ν η ρ γ : Type}', ret_lean='ρ',
         args=[('etype', 'etype'), ('data', 'data')],
         ret_none='{P}.noneVal', ret_type='retval',
@@ -818,7 +906,8 @@ def event_target(api):
 def send_target(api):
     block = api['block']
     return dict(
-        name='send', doc='block.Event.send', node=lambda: api['fn_ast'](block.Event.send),
+        name='send', doc='block.Event.send', node=lambda: not_overridden(api, block.Event, 'send'),
+        signature='self, source, /, **data',
         P='Q', prims='SendPrims σ ε δ φ ψ', tyvars='{σ ε δ φ ψ : Type}', ret_lean='Bool',
         args=[('data', 'data')], extra_params=[('filters', 'List φ')],
         ret_type='bool',
@@ -828,7 +917,8 @@ def send_target(api):
                'self._dest': ('()', 'dest'), 'source.name': ('()', 'srcname')},
         setitem={('source', 'srcname'): '{P}.setSource {d}'},
         lists={'self._filters': ('filters', 'filter')},
-        var_calls=[('filter', [('ty', 'data')], '{P}.applyFilter {f} {a[0]}', 'fres')],
+        # a filter is user code: it may raise and may have effects, so its position is part of the program
+        var_calls=[('filter', [('ty', 'data')], '!{P}.applyFilter {f} {a[0]}', 'fres')],
         isinstance={('fres', 'MutableMapping'): '{P}.isMapping {x}'},
         iter={('fres', 'keys'): '{P}.anyKeyNotStr {x}'},
         convert={('fres', 'data'): '{P}.asData {x}'},
